@@ -158,6 +158,25 @@ func txDetail(a, b string, kinds []string) string {
 	return ""
 }
 
+// storeDetail names the stores whose commit hashes differ between two observation lines.
+func storeDetail(a, b string) string {
+	sa, sb := strings.Split(field(a, "stores"), ","), strings.Split(field(b, "stores"), ",")
+	var diff []string
+	for i := 0; i < len(sa) && i < len(sb); i++ {
+		if sa[i] != sb[i] {
+			name := sa[i]
+			if j := strings.IndexByte(name, ':'); j > 0 {
+				name = name[:j]
+			}
+			diff = append(diff, name)
+		}
+	}
+	if len(diff) == 0 {
+		return ""
+	}
+	return "; diverging stores: " + strings.Join(diff, ",")
+}
+
 // compare reports the first differing line between a reference execution and another one.
 func compare(out *hx.Out, h *detx.History, kinds [][]string, histPath, refName string, ref []string, name string, got []string) bool {
 	n := len(ref)
@@ -178,7 +197,7 @@ func compare(out *hx.Out, h *detx.History, kinds [][]string, histPath, refName s
 		fields := detx.DiffFields(a, b)
 		consensus := false
 		for _, f := range fields {
-			if f == "apphash" || f == "results" || f == "valupd" || f == "h" || f == "ntx" || f == "err" || f == "gas" || f == "codes" {
+			if f == "apphash" || f == "results" || f == "valupd" || f == "h" || f == "ntx" || f == "err" || f == "gas" || f == "codes" || f == "stores" {
 				consensus = true
 			}
 		}
@@ -193,7 +212,7 @@ func compare(out *hx.Out, h *detx.History, kinds [][]string, histPath, refName s
 			if i-1 < len(kinds) {
 				k = kinds[i-1]
 			}
-			detail = txDetail(a, b, k)
+			detail = txDetail(a, b, k) + storeDetail(a, b)
 		}
 		rep := describeHistory(h, histPath)
 		rep = append(rep, "# "+refName+": "+a, "# "+name+": "+b)
@@ -224,7 +243,7 @@ func TestC17(t *testing.T) {
 		}
 	}
 	var lastGen *gen
-	var probes [][2]string
+	var probes, tallies [][2]string
 	executions := 0
 	for hi := 0; hi < nHist; hi++ {
 		hseed := seed*1000 + int64(hi)
@@ -233,10 +252,11 @@ func TestC17(t *testing.T) {
 		g.run()
 		lastGen = g
 		probes = append(probes, g.probes...)
+		tallies = append(tallies, g.tallies...)
 		ref := []string{fmt.Sprintf("h=0 apphash=%x", g.c.InitResp.AppHash)}
 		okBlocks := 0
-		for _, o := range g.obs {
-			ref = append(ref, obsLine(o))
+		for i, o := range g.obs {
+			ref = append(ref, g.lines[i])
 			if o.Err == "" {
 				okBlocks++
 			}
@@ -316,6 +336,12 @@ func TestC17(t *testing.T) {
 	for _, pr := range probes {
 		out.Emit(pr[0], pr[1])
 		out.Nontrivial("updateoracles:" + pr[1][:min(len(pr[1]), 12)])
+	}
+	// gov Tally: the real keeper against "sum of the per-validator contributions" (the structure `tally_perm` is about)
+	out.Reset("models-tally")
+	for _, pr := range tallies {
+		out.Emit(pr[0], pr[1])
+		out.Nontrivial("tally:" + pr[1][:min(len(pr[1]), 10)])
 	}
 	modelOps(t, out, seed, lastGen)
 }
